@@ -17,10 +17,13 @@ META = {
         "per-adapter rules, so the structural rules of C09 (Head/Tail/Skip), C10 (Filter/FilterMap) and C11 (Sort*) are evaluated here as well."),
     "trusted_base": ["imbl::Vector", "rustc MIR construction"],
     "assumptions": [],
-    "not_decided": "diffs still parked in an already-polled adapter's ready buffer when it is handed on; item identity inside a stage beyond lengths / indices / refill positions (C09)",
+    "not_decided": "item identity inside a stage beyond lengths / indices / refill positions (C09)",
 }
 META["technique"] = "static analysis: dominance / provenance / typestate rules over rustc MIR facts (rustc_private driver) + path-partitioned abstract interpretation in a linear-inequality domain (view-length balance; Fourier-Motzkin emptiness, no execution, no external solver)"
+META["explanation"] += (" R12.4 an adapter that owns a buffer of diffs waiting to be handed out (ready_values) resets that buffer on every path of its "
+                        "into_parts (post-domination): the handed-over view already contains those diffs (F10, repaired by a479776; the reverse patch re-fires).")
 META["explanation"] += ' R12.3 the view handed to the next stage is in source order (no odd number of rev() in the chain it is collected from).'
+META["explanation"] += " R12.5 into_parts only reads the adapter's own replica / limit / count when it hands the adapter on as the stream (no mem::take / assignment / in-place cut of those fields)."
 
 
 def run(ctx):
@@ -33,9 +36,9 @@ def run(ctx):
 
 def parts_rules(ctx):
     """R12.1 / R12.2: what `into_parts` hands to the next stage, and that the ext methods pass both parts on."""
-    if getattr(ctx, "_parts_done", False):
+    if getattr(ctx, "_parts_done", None) == ctx.config:   # once per configuration
         return
-    ctx._parts_done = True
+    ctx._parts_done = ctx.config
     F = ctx.facts
     n = 0
     for imp in F.impls:
@@ -124,3 +127,88 @@ def parts_rules(ctx):
             ctx.verdict(ok, "R12.2", f, "ext-passes-parts", b.line_at((blk, 10 ** 6)), "%s(items, stream, ..) with both parts of into_parts()" % F.local_callee(f, t).name,
                         "`%s` does not hand the two parts of into_parts() unchanged to the adapter constructor" % f.path)
     ctx.floor("R12.2", k, 14)
+    r12_4(ctx)
+    r12_5(ctx)
+
+
+
+def r12_4(ctx):
+    """an adapter that is handed to the next stage hands over its *current* view: diffs it has already computed but not yet handed
+    out (its ready buffer) are part of that view - buffered_vector, limit and count already moved on - so `into_parts` must discard
+    them (assign / take the buffer on every path); otherwise the next stage replays them on top of values that contain them."""
+    F = ctx.facts
+    n = 0
+    for imp in F.impls:
+        if imp["crate"] != UT or imp["trait"] != "vector::traits::VectorObserver":
+            continue
+        st = imp["self_ty"]
+        adt = F.adt(UT, st.split("<")[0])
+        if adt is None:
+            continue
+        bufs = [fd["name"] for fd in adt["variants"][0]["fields"] if re.search(r"Buf\b|SmallVec<|ArrayVec<|VecDeque<.*VectorDiff|Vec<.*VectorDiff", fd["ty"])]
+        if not bufs:
+            continue
+        fn_path = [p for p in imp["fns"] if p.endswith("::into_parts")]
+        f = F.fn(UT, fn_path[0]) if fn_path else None
+        if f is None or not f.built:
+            continue
+        b = inl(F, f, desugar=True, tag="r12.4") or f.built
+        for name in bufs:
+            n += 1
+            clears = {loc[0] for loc, s_ in assigns_to_field(b, name)}
+            for blk, t in b.calls(r"^std::mem::(take|replace|swap)$|::(clear|drain|truncate)$"):
+                if t["args"] and mentions_field(b.expr_of_op(t["args"][0]), name):
+                    clears.add(blk)
+            ok = bool(clears) and b.post_dominated_by(0, clears)
+            ctx.verdict(ok, "R12.4", f, "handover-discards-waiting-diffs:%s" % name, f.loc(), "`%s` is reset on every path of into_parts" % name,
+                        "`%s` hands the current view to the next adapter but keeps the diffs still waiting in `%s`: they are already reflected in the returned values (the adapter's replica and limit have moved on), so the next stage applies them a second time - `[1,2,3].dynamic_head(2)`, push_front(0), one poll, then `.head(10)` shows [0,0,1]" % (f.path, name))
+    ctx.floor("R12.4", n, 3)
+
+
+def r12_5(ctx):
+    """`into_parts` returns the adapter itself as the stream of the next stage: it keeps translating source diffs against its own
+    replica of the source (and its limit / count). The hand-over therefore only *reads* that state: a replica that is moved out
+    (`mem::take`), overwritten or cut in place leaves the stream working from a wrong picture of the source - e.g. a Head that
+    forgets the items it already shows stops emitting the PopBack that keeps the view within its limit."""
+    F = ctx.facts
+    n = 0
+    for imp in F.impls:
+        if imp["crate"] != UT or imp["trait"] != "vector::traits::VectorObserver":
+            continue
+        st = imp["self_ty"]
+        adt = F.adt(UT, st.split("<")[0])
+        if adt is None:
+            continue
+        state = [fd["name"] for fd in adt["variants"][0]["fields"]
+                 if not re.search(r"Buf\b|SmallVec<|ArrayVec<|VecDeque<.*VectorDiff|Vec<.*VectorDiff", fd["ty"]) and re.search(r"imbl::|Vector<|usize|Option<usize>", fd["ty"])]
+        if not state:
+            continue
+        fn_path = [p for p in imp["fns"] if p.endswith("::into_parts")]
+        f = F.fn(UT, fn_path[0]) if fn_path else None
+        if f is None or not f.built:
+            continue
+        b = inl(F, f, desugar=True, tag="r12.4") or f.built
+        # is self handed on as the stream?
+        hands_self = any(kind == "assign" and payload["k"] == "agg" and payload.get("of") == "tuple" and
+                         any(contains(b.expr_of_op(o), lambda y: y[0] == "param" and y[1] == 1) and not has_field_access(b.expr_of_op(o)) for o in payload["ops"])
+                         for loc, kind, payload in blocks_assigning_ret(b))
+        if not hands_self:
+            continue
+        for name in state:
+            n += 1
+            hits = [loc for loc, s_ in assigns_to_field(b, name)]
+            for blk, t in b.calls(r"^std::mem::(take|replace|swap)$|GenericVector::<.*>::(clear|truncate|split_off|retain|pop_front|pop_back|push_back|push_front|insert|remove|set|append|slice)$|Option::<.*>::(take|replace|insert)$"):
+                if t["args"]:
+                    e0 = b.expr_of_op(t["args"][0])
+                    x0 = strip(e0, through_calls=False)
+                    if x0[0] == "field" and x0[2] == name and contains(x0, lambda y: y[0] == "param" and y[1] == 1):
+                        hits.append((blk, 0))
+            ctx.verdict(not hits, "R12.5", f, "handover-keeps-own-state:%s" % name, b.line_at(hits[0]) if hits else f.loc(), "`%s` is only read by into_parts" % name,
+                        "`%s` changes `self.%s` while handing the adapter on as the stream of the next stage: the stream keeps translating source diffs against that field, which no longer describes the source / the "
+                        "parameter (a replica moved out with mem::take is empty: a Head then forwards pushes without the PopBack that keeps the view within its limit, a Tail / Skip computes positions against an empty vector)" % (f.path, name))
+    ctx.floor("R12.5", n, 3)
+
+
+def has_field_access(e):
+    x = strip(e, through_calls=False)
+    return x[0] == "field"
